@@ -397,6 +397,8 @@ Proof.
     + apply hc_eff. eapply ret_invoke_outcome; eauto.
     + inversion H; subst. apply hc_eff, out_eff; [eff_tac | reflexivity].
     + inversion H; subst. apply hc_eff, out_eff; [eff_tac | reflexivity].
+    + inversion H; subst. apply hc_eff, out_eff; [eff_tac | reflexivity].
+    + inversion H; subst. apply hc_eff, out_eff; [eff_tac | reflexivity].
     + apply hc_eff. eapply terminate_outcome; eauto.
     + destruct (aget (actors s) a); inversion H; subst; apply hc_eff, out_eff; try reflexivity; eff_tac.
 Qed.
